@@ -242,6 +242,22 @@ func c11Body(s *simkit.Sim, rc *simkit.RunCtx) {
 		}
 		f.Filter = func(kind, site string) bool { return strings.Contains(site, "/statuslist/") }
 	}
+	// ---- storage faults inside revocations (the other operations of the workload are spared: their oracles assume a working issuer) ----
+	revoking := map[string]bool{}
+	if s.D.Decide("sql-faults-in-revoke", 3) == 2 {
+		f.Rates[seams.SQLStmtErr] = 60
+		f.Rates[seams.SQLCommitFail] = 100
+		sample.FaultKinds = append(sample.FaultKinds, seams.SQLStmtErr, seams.SQLCommitFail)
+		httpFilter := f.Filter
+		f.Filter = func(kind, site string) bool {
+			if strings.HasPrefix(kind, "sql.") {
+				mu.Lock()
+				defer mu.Unlock()
+				return revoking[s.Label()]
+			}
+			return httpFilter == nil || httpFilter(kind, site)
+		}
+	}
 
 	verify := func(c *c11Cred) (bool, string) {
 		req := map[string]interface{}{"verifiableCredential": json.RawMessage(c.JSON)}
@@ -437,8 +453,15 @@ func c11Body(s *simkit.Sim, rc *simkit.RunCtx) {
 			c.RevStart = s.Steps
 		}
 		mu.Unlock()
+		mu.Lock()
+		revoking[s.Label()] = true
+		mu.Unlock()
 		code, body := iss.Revoke(c.ID)
-		if code == 204 || code == 200 {
+		mu.Lock()
+		delete(revoking, s.Label())
+		mu.Unlock()
+		// 409: "already revoked" - the node asserts that the credential is revoked, which is as good as an acknowledgement
+		if code == 204 || code == 200 || code == 409 {
 			mu.Lock()
 			if c.RevAck == 0 {
 				c.RevAck = s.Steps
